@@ -157,6 +157,25 @@ func (x *Explorer) Run() *HarnessResult {
 	return x.R
 }
 
+// RunConcrete executes the harness once under a concrete assignment and returns
+// the violation classes observed.
+func (x *Explorer) RunConcrete(model map[string]string) []string {
+	x.m.X = x
+	x.m.S.Restart()
+	env := map[string]*big.Int{}
+	for k, hv := range model {
+		b, _ := new(big.Int).SetString(hv, 16)
+		env[k] = b
+	}
+	x.runPath(nil, env)
+	var got []string
+	for c := range x.viol {
+		got = append(got, c)
+	}
+	sort.Strings(got)
+	return got
+}
+
 // confirm re-executes the harness concretely under the model and checks that the
 // same class of violation is observed.
 func (x *Explorer) confirm(v *Violation) {
